@@ -1985,3 +1985,377 @@ def standardize_bad_species(H):
 @op("graph")
 def graph_bad_method(H):
     return prs.graph_clustering(H["triplets_arr"], H["nodes_list"], clustering="no_such_method")
+
+
+# =============================================================================================
+# container variants: the same call with a set / frozenset / tuple / object array / read-only array /
+# named Series with a non-default index / dict view in place of the list
+# =============================================================================================
+@heap
+def seqs_set():
+    return {"CAAA", "CADA", "CAAK", "CDKD", "CAKK", "CDDD"}
+
+
+@heap
+def seqs_tuple():
+    return ("CAAA", "CADA", "CAAA", "CDKD", "CAAK", "CAAAK")
+
+
+@heap
+def seqs_objarr():
+    return np.array(["CAAA", "CADA", "CAAA", "CDKD", "CAAK", "CAAAK"], dtype=object)
+
+
+@heap
+def seqs_readonly():
+    a = np.array(["CAAA", "CADA", "CAAA", "CDKD", "CAAK", "CAAAK"])
+    a.flags.writeable = False
+    return a
+
+
+@heap
+def counts_readonly():
+    a = np.array([12, 5, 3, 3, 1, 1, 1, 0, 2])
+    a.flags.writeable = False
+    return a
+
+
+@heap
+def counts_series():
+    return pd.Series([12, 5, 3, 3, 1, 1, 1, 0, 2], index=list("abcdefghi"), name="clone_count")
+
+
+@heap
+def counts_uint8():
+    return np.array([12, 5, 3, 3, 1, 1, 1, 0, 2], dtype=np.uint8)
+
+
+@heap
+def seqs_named_series():
+    s = pd.Series(["CAAA", "CADA", "CAAK", "CDKD", "CAAA", "CAKK"], index=pd.Index([5, 3, 9, 1, 7, 2], name="cell"), name="junction")
+    s.attrs["source"] = "unit"
+    return s
+
+
+@heap
+def df_categorical():
+    df = pd.DataFrame({"a": pd.Categorical(["x", "y", "x", "z", "y", "x"], categories=["z", "y", "x", "unused"]),
+                       "b": ["p", "q", "p", "q", None, "p"], "group": ["g1", "g1", "g2", "g2", "g2", "g1"]})
+    df.columns.name = "feature"
+    df.attrs["note"] = "keep"
+    return df
+
+
+@op("neighbors", post=sorted_list)
+def find_pairs_set(H):
+    return prs.find_neighbor_pairs(H["seqs_set"])
+
+
+@op("neighbors", post=sorted_list)
+def find_pairs_index_set(H):
+    return [sorted(prs.find_neighbor_pairs(H["seqs_tuple"])), len(prs.find_neighbor_pairs_index(H["seqs_set"])),
+            sorted(prs.find_neighbor_pairs_index(list(dict.fromkeys(H["seqs_tuple"]))))]
+
+
+@op("neighbors")
+def neighbor_numbers_containers(H):
+    return [prs.calculate_neighbor_numbers(H["seqs_set"]), prs.calculate_neighbor_numbers(H["seqs_tuple"], reference=H["seqs_set"]),
+            prs.calculate_neighbor_numbers(H["seqs_objarr"], reference=frozenset(H["seqs_set"])),
+            prs.isdist1("CAAF", H["seqs_tuple"]), prs.nndist_hamming("CADD", H["seqs_set"])]
+
+
+@op("kdtree", post=sorted_list)
+def kdtree_containers(H):
+    return [sorted(prs.kdtree(H["seqs_tuple"], max_edits=1)), sorted(prs.kdtree(H["seqs_objarr"], max_edits=1)),
+            sorted(prs.kdtree(H["seqs_readonly"], max_edits=1)), sorted(prs.kdtree(H["seqs_named_series"], max_edits=1))]
+
+
+@op("symdel", post=sorted_list)
+def symdel_containers(H):
+    return [sorted(prs.symdel(H["seqs_tuple"], max_edits=1)), sorted(prs.symdel(H["seqs_readonly"], max_edits=1)),
+            sorted(prs.symdel(H["seqs_objarr"], max_edits=1, seqs2=H["seqs_tuple"])),
+            sorted(prs.hash_based(H["seqs_readonly"], max_edits=1)), sorted(prs.hash_based(H["seqs_tuple"], max_edits=1))]
+
+
+@op("db", post=sorted_list)
+def db_lookup_containers(H):
+    return [sorted(H["symdel_db"].lookup(H["seqs_tuple"])), sorted(H["symdel_db"].lookup(H["seqs_readonly"])),
+            sorted(H["lookup_db"].lookup(H["seqs_tuple"])), sorted(H["lookup_db"].lookup(H["seqs_named_series"].to_numpy()))]
+
+
+@op("pc")
+def pc_containers(H):
+    return [prs.pc(H["seqs_tuple"][:3] + H["seqs_tuple"][3:]), prs.pc(H["seqs_objarr"]), prs.pc(H["seqs_readonly"], H["seqs_named_series"]),
+            prs.pc(H["seqs_named_series"]), prs.pc_n(H["counts_readonly"]), prs.pc_n(H["counts_series"]), prs.pc_n(H["counts_uint8"].astype(int)),
+            prs.stdpc(H["seqs_readonly"]), prs.varpc_n(H["counts_readonly"]), prs.stdpc_n(H["counts_series"])]
+
+
+@op("pc")
+def pc_categorical(H):
+    return [prs.pc(H["df_categorical"]["a"]), prs.pc(H["df_categorical"][["a", "b"]]), prs.pc_joint(H["df_categorical"], ["a", "group"]),
+            prs.pc_conditional(H["df_categorical"], "group", "a"), prs.renyi2_entropy(H["df_categorical"], "a"),
+            prs.stdpc_joint(H["df_categorical"], ["a", "group"])]
+
+
+@op("subsample", rand=True)
+def subsample_containers(H):
+    return [prs.subsample(H["counts_readonly"], 6), prs.subsample(H["counts_series"], 6), prs.subsample(H["counts_uint8"], 6),
+            prs.subsample(tuple(H["counts_list"]), 3)]
+
+
+@op("downsample", rand=True)
+def downsample_containers(H):
+    return [prs.downsample(H["seqs_tuple"], 3), prs.downsample(H["seqs_readonly"], 3), prs.downsample(H["seqs_named_series"], 3),
+            prs.downsample(H["seqs_objarr"], 6), prs.downsample(H["df_categorical"], 2)]
+
+
+@op("pdist")
+def pdist_containers(H):
+    return [prs.pdist(H["seqs_tuple"]), prs.pdist(H["seqs_set"] - {"CAKK"}).shape, prs.cdist(H["seqs_readonly"], H["seqs_named_series"]),
+            prs.pdist(iter(H["seqs_tuple"])), prs.cdist(H["seqs_objarr"], H["seqs_tuple"])]
+
+
+@op("pcDelta")
+def pcDelta_containers(H):
+    return [prs.pcDelta(H["seqs_tuple"][:3] + H["seqs_tuple"][3:], bins=H["bins_arr"]), prs.pcDelta(H["seqs_readonly"], bins=H["bins_arr"]),
+            prs.pcDelta(H["seqs_named_series"], H["seqs_objarr"], bins=H["bins_arr"]), prs.pcDelta(H["seqs_objarr"], bins=tuple(range(6)))]
+
+
+@op("metric")
+def metric_containers(H):
+    return [H["metric_lev"].calc_pdist_vector(H["seqs_tuple"]), H["metric_lev"].calc_cdist_matrix(H["seqs_readonly"], H["seqs_named_series"]),
+            H["metric_wlev"].calc_pdist_vector(H["seqs_objarr"])]
+
+
+@op("hclust")
+def hclust_containers(H):
+    return [prs.hierarchical_clustering(H["seqs_tuple"][:3] + H["seqs_tuple"][3:]), prs.hierarchical_clustering(H["seqs_readonly"]),
+            prs.hierarchical_clustering(H["seqs_named_series"], cluster_kws=H["dict_cluster"])]
+
+
+@op("chao")
+def chao_containers(H):
+    return [prs.chao1(H["counts_readonly"]), prs.var_chao1(H["counts_series"].to_numpy()), prs.chao2(tuple(H["counts_list"]), 4),
+            prs.chao1(H["counts_uint8"])]
+
+
+@op("sets")
+def sets_containers(H):
+    return [prs.jaccard_index(H["seqs_set"], H["seqs_tuple"]), prs.jaccard_index(H["seqs_named_series"], H["seqs_set"]),
+            prs.overlap(H["seqs_tuple"], H["seqs_readonly"]), prs.overlap_coefficient(H["seqs_named_series"], H["seqs_objarr"])]
+
+
+@op("rankfreq")
+def rankfrequency_containers(H):
+    return [pp.rankfrequency(H["counts_readonly"]), pp.rankfrequency(H["counts_series"], normalize_x=False),
+            pp.rankfrequency(H["counts_list"], log_y=False), pp.rankfrequency(H["counts_uint8"], normalize_y=True)]
+
+
+@op("graph")
+def graph_containers(H):
+    ro = H["triplets_arr"].copy()
+    ro.flags.writeable = False
+    return [prs.graph_clustering(ro, tuple(H["nodes_list"])), prs.graph_clustering(ro, np.array(H["nodes_list"]), clustering="DBSCAN")]
+
+
+@op("util")
+def util_containers(H):
+    return [prs.seqs_to_regex(tuple(H["seqs_eqlen"]), align=False), prs.seqs_to_consensus(np.array(H["seqs_eqlen"]), align=False),
+            prs.ensure_numpy(H["seqs_tuple"]), prs.ensure_numpy(H["seqs_named_series"]), prs.ensure_numpy(H["seqs_readonly"]) is H["seqs_readonly"]]
+
+
+@op("valid")
+def isvalid_containers(H):
+    return [prs.isvalidaa(H["seqs_tuple"]), prs.isvalidaa(H["seqs_set"]), prs.isvalidcdr3(H["seqs_tuple"]),
+            list(H["seqs_named_series"].map(prs.isvalidcdr3)), list(map(prs.isvalidaa, H["mixed_values"][:6]))]
+
+
+# =============================================================================================
+# calls that raise in the MIDDLE of the work, for every module (anything set up before the failure and torn
+# down after it is left behind)
+# =============================================================================================
+@op("entropy")
+def renyi_missing_column(H):
+    return prs.renyi2_entropy(H["df_stats"], "no_such_column")
+
+
+@op("entropy")
+def renyi_missing_joint_column(H):
+    return prs.renyi2_entropy(H["df_stats"], ["a", "no_such_column"])
+
+
+@op("entropy")
+def renyi_bad_weights(H):
+    return prs.renyi2_entropy(H["df_stats"], "a", by="group", group_weights=[1.0, 2.0])
+
+
+@op("entropy")
+def renyi_unexpected_kw(H):
+    return prs.renyi2_entropy(H["df_stats"], "a", by="group", no_such_option=1)
+
+
+@op("entropy")
+def renyi_missing_by(H):
+    return prs.renyi2_entropy(H["df_stats"], "a", by="no_such_group")
+
+
+@op("entropy")
+def stdrenyi_missing_column(H):
+    return prs.stdrenyi2_entropy(H["df_stats"], ["a", "nope"])
+
+
+@op("pc")
+def pc_conditional_bad_weights(H):
+    return prs.pc_conditional(H["df_stats"], "group", "a", group_weights=np.array([1.0, 2.0]))
+
+
+@op("pc")
+def pc_joint_missing_column(H):
+    return prs.pc_joint(H["df_stats"], ["a", "nope"])
+
+
+@op("pc")
+def pc_grouped_cross_missing(H):
+    return prs.pc_grouped_cross(H["df_stats"], "group", ["a", "nope"])
+
+
+@op("pc")
+def pc_unhashable(H):
+    return prs.pc([["a"], ["b"], ["a", "c"]])
+
+
+@op("pcDelta")
+def pcDelta_grouped_missing(H):
+    return prs.pcDelta_grouped(H["df_cluster"], "epitope", "no_such_column", bins=H["bins_arr"])
+
+
+@op("pcDelta")
+def pcDelta_cross_missing(H):
+    return prs.pcDelta_grouped_cross(H["df_cluster"], "donor", "no_such_column")
+
+
+@op("pcDelta")
+def pcDelta_numbers(H):
+    return prs.pcDelta([1, 2, 3, 4])
+
+
+@op("chao")
+def chao_empty(H):
+    return prs.chao1([])
+
+
+@op("subsample", rand=True)
+def subsample_negative(H):
+    return prs.subsample(H["counts_list"], -3)
+
+
+@op("subsample", rand=True)
+def subsample_negative_counts(H):
+    return prs.subsample([3, -1, 2], 2)
+
+
+@op("powerlaw")
+def powerlaw_mle_strings(H):
+    return prs.powerlaw_mle_alpha(["a", "b"], method="simple")
+
+
+@op("powerlaw", rand=True)
+def powerlaw_sample_bad_size(H):
+    return prs.powerlaw_sample(size=-5)
+
+
+@op("hclust")
+def hclust_single(H):
+    return prs.hierarchical_clustering(["CASSF"])
+
+
+@op("hclust")
+def hclust_bad_metric(H):
+    return prs.hierarchical_clustering(H["seqs_list"], metric="levenshtein")
+
+
+@op("graph")
+def graph_short_nodes(H):
+    return prs.graph_clustering(H["triplets_arr"], H["nodes_list"][:3])
+
+
+@op("multimerge")
+def multimerge_missing_key(H):
+    return prs.multimerge(H["dfs_list"], "no_such_key", suffixes=H["suffixes_list"])
+
+
+@op("standardize")
+def standardize_not_a_table(H):
+    return prs.standardize_dataframe(H["seqs_list"])
+
+
+@op("density")
+def density_mismatch(H):
+    return pp.density_scatter(H["xy_points"][0], H["xy_points"][1][:10])
+
+
+@op("rankfreq")
+def rankfrequency_strings(H):
+    return pp.rankfrequency(H["seqs_list"])
+
+
+@op("logos")
+def seqlogos_empty(H):
+    return pp.seqlogos([])
+
+
+@op("colors", rand=True)
+def colors_bad_palette_kw(H):
+    return pp.labels_to_colors_hls(H["many_labels"], palette_kws={"no_such_kw": 1})
+
+
+@op("pdist", cb=cb_plain_lev)
+def pdist_bad_kwargs(H, cb=cb_plain_lev):
+    return prs.pdist(H["seqs_list"], metric=lambda a, b: cb(a, b) if a != b else [][0])
+
+
+@op("metric")
+def metric_table_with_missing(H):
+    df = H["df_tcr"].copy()
+    df.loc[103, "CDR3B"] = None
+    return H["metric_beta"].calc_pdist_vector(df)
+
+
+@op("neighbors")
+def neighbors_bad_callable(H):
+    return prs.find_neighbor_pairs(H["seqs_arr"], neighborhood=lambda x: 1 / 0)
+
+
+@op("db")
+def lookup_non_strings(H):
+    return H["symdel_db"].lookup([1, 2, 3])
+
+
+@op("db")
+def lookupdb_non_strings(H):
+    return H["lookup_db"].lookup(["CAAA", None])
+
+
+@heap
+def df_cluster15():
+    fams = ["CASSLGQAYEQYF", "CAWSVGTDTQYF", "CSARDRGNTIYF", "CASSPRDSGNTLYF", "CAISESGYEQYF"]
+    rows = []
+    for f in fams:
+        rows += [f, f[:5] + "A" + f[6:], f[:7] + "S" + f[8:]]
+    return pd.DataFrame({"cdr3b": rows, "cdr3a": [r[::-1].replace("F", "C", 1)[::-1] if False else "CAV" + r[3:9] + "F" for r in rows],
+                         "epitope": ["e%d" % (i // 3) for i in range(15)]}, index=list(range(100, 115)))
+
+
+@op("clustermap", rand=True, slow=True)
+def clustermap_five_clusters(H):
+    return pp.similarity_clustermap(H["df_cluster15"], alpha_column=None)
+
+
+@op("clustermap", rand=True, slow=True)
+def clustermap_five_clusters_meta(H):
+    return pp.similarity_clustermap(H["df_cluster15"], alpha_column=None, meta_columns=["epitope"], figsize=(3.5, 3.5))
+
+
+@op("colors", rand=True)
+def colors_hls_clusters(H):
+    return pp.labels_to_colors_hls(np.array([1, 1, 1, 2, 2, 2, 3, 3, 3, 4, 4, 4, 5, 5, 5]), min_count=2)
